@@ -31,8 +31,12 @@ type reexecJob struct {
 	Blocks []loggedBlock `json:"blocks"`  // blocks From+1 ...
 }
 
+// fakeClockStep is set only in the fake-wall-clock child (fakeclock_test.go): called before every block.
+var fakeClockStep func(i int)
+
 type reexecResult struct {
 	OK       bool   `json:"ok"`
+	WallClockYear int `json:"wall_clock_year,omitempty"` // year the child's time.Now() showed after the last block
 	Height   int64  `json:"height,omitempty"`
 	Got      string `json:"got,omitempty"`
 	Want     string `json:"want,omitempty"`
@@ -125,7 +129,11 @@ func cmdReexec(args []string) {
 		out.Err = err.Error()
 		return
 	}
-	for _, lb := range job.Blocks {
+	for i, lb := range job.Blocks {
+		if fakeClockStep != nil {
+			fakeClockStep(i)
+			out.WallClockYear = time.Now().Year()
+		}
 		blk := &Block{Height: lb.Height, Time: time.Unix(0, lb.TimeNs).UTC()}
 		for _, h := range lb.Txs {
 			bz, err := hex.DecodeString(h)
@@ -155,6 +163,25 @@ func cmdReexec(args []string) {
 
 // reexecInFreshProcess runs the child and returns its verdict.
 func (s *Sim) reexecInFreshProcess(job *reexecJob, env []string) (*reexecResult, error) {
+	return s.reexecChild(job, env, "")
+}
+
+// fakeClockBinary: the go1.26.8-built test binary of this package (see fakeclock_test.go), if present.
+func fakeClockBinary() string {
+	self, err := os.Executable()
+	if err != nil {
+		return ""
+	}
+	p := filepath.Join(filepath.Dir(self), "elyssim-fakeclock")
+	if st, err := os.Stat(p); err == nil && !st.IsDir() {
+		return p
+	}
+	return ""
+}
+
+// reexecChild runs the job in a child process: this binary's `reexec` command, or (fake != "") the
+// fake-wall-clock test binary.
+func (s *Sim) reexecChild(job *reexecJob, env []string, fake string) (*reexecResult, error) {
 	dir, err := os.MkdirTemp("", "elyssim-reexec-")
 	if err != nil {
 		return nil, err
@@ -169,13 +196,27 @@ func (s *Sim) reexecInFreshProcess(job *reexecJob, env []string) (*reexecResult,
 	if err := os.WriteFile(jp, bz, 0o644); err != nil {
 		return nil, err
 	}
+	if keep := os.Getenv("ELYSSIM_KEEP_JOB"); keep != "" {
+		_ = os.WriteFile(filepath.Join(keep, fmt.Sprintf("job-%d-from%d.json", s.Seed, job.From)), bz, 0o644)
+	}
 	self, _ := os.Executable()
 	cmd := exec.Command(self, "reexec", jp)
+	if fake != "" {
+		cmd = exec.Command(fake, "-test.run=^TestFakeClockReexec$", "-test.timeout=30m")
+		env = append(env, "ELYSSIM_FAKECLOCK_JOB="+jp, "GODEBUG=asynctimerchan=0")
+	}
 	cmd.Env = append(os.Environ(), env...)
 	cmd.Env = append(cmd.Env, "ELYSSIM_HOME="+filepath.Join(dir, "home"))
 	outb, err := cmd.Output()
 	if err != nil {
-		return nil, fmt.Errorf("child failed: %v", err)
+		tail := ""
+		if ee, ok := err.(*exec.ExitError); ok {
+			tail = string(ee.Stderr)
+			if len(tail) > 1500 {
+				tail = tail[:700] + " ... " + tail[len(tail)-700:]
+			}
+		}
+		return nil, fmt.Errorf("child failed: %v %s", err, tail)
 	}
 	var res reexecResult
 	lines := splitLines(string(outb))
@@ -228,6 +269,27 @@ func (s *Sim) finishReexec() {
 	if !res.OK {
 		s.Violate("C19", "fresh_process_diverged", "reexec/from_genesis", "a fresh OS process (other TZ, GOMAXPROCS) re-executing the same block log from genesis diverged at height %d: app hash %s, reference %s %s", res.Height, res.Got, res.Want, res.Err)
 		return
+	}
+	// 1b. from genesis under a fake wall clock (testing/synctest bubble, go1.26.8 build): the wall clock
+	// starts in the year 2000 and jumps by minutes to decades between blocks
+	if fc := fakeClockBinary(); fc != "" {
+		job := &reexecJob{Cfg: s.Cfg, From: 0, Blocks: s.blockLog}
+		res, err := s.reexecChild(job, []string{"TZ=Asia/Kathmandu", "GOMAXPROCS=2"}, fc)
+		if err != nil {
+			s.Harness("reexec(fake clock): %v", err)
+			return
+		}
+		s.Stats.Inc("reexec_fake_wall_clock_blocks", float64(res.Compared))
+		if res.WallClockYear > 0 {
+			s.Stats.Inc("reexec_fake_wall_clock_years_spanned", float64(res.WallClockYear-2000))
+		}
+		s.Stats.Inc("fault/replica_under_fake_wall_clock", 1)
+		if !res.OK {
+			s.Violate("C19", "fake_wall_clock_diverged", "reexec/fake_wall_clock", "a replica re-executing the same block log under a simulated wall clock (year 2000 onwards, jumping between blocks; reached year %d) diverged at height %d: app hash %s, reference %s %s", res.WallClockYear, res.Height, res.Got, res.Want, res.Err)
+			return
+		}
+	} else {
+		s.Stats.Probe("fake_wall_clock_replica_unavailable")
 	}
 	// 2. resume from the database dump taken at height dumpAt (restart in another process)
 	if s.dumpPath != "" && s.dumpAt > 0 {
